@@ -435,3 +435,36 @@ package argmapper
 //@   after "copy(optsCopy[len(f.callOpts):], opts)" assert [copied-in-order] len(optsCopy) == combLen(f, opts) && forall(i, int, imp(0 <= i && i < len(optsCopy), optsCopy[i] == comb(f, opts, i)))
 //@   assigns  Func, argBuilder, NamedM, NamedSubM, TypedM, TypedSubM, []*Func, []ConverterGenFunc, ValueSet, Value, valueInternal, []*Value, map[string]*Value, map[reflect.Type]*Value, map[string]string, []string, []interface{}, reflect.StructField, []reflect.StructField, []Arg, rvstore, rvfresh
 //@   modifies nothing
+
+// ---------------------------------------------------------------- graph.go: vertices and their hash codes (A-hash)
+// Label fields of vertices are written only when the vertex is created.
+//@ immutable valueVertex.Name, valueVertex.Type, valueVertex.Subtype, typedArgVertex.Name, typedArgVertex.Type, typedArgVertex.Subtype, typedOutputVertex.Name, typedOutputVertex.Type, typedOutputVertex.Subtype
+//@ ghost hashV(n string, t reflect.Type, s string) any = box(sprintf3("%s/%s/%s", box(n), box(typeStr(t)), box(s)))
+//@ ghost hashA(t reflect.Type, s string) any = box(sprintf2("arg: %s/%s", box(typeStr(t)), box(s)))
+//@ ghost hashO(t reflect.Type, s string) any = box(sprintf2("out: %s/%s", box(typeStr(t)), box(s)))
+//@ assume-note A-hash: the three Sprintf formats used for hash codes are injective in their operands and never collide with one another (names and subtypes contain no '/', types are distinctly named: typeStr is injective) — the "distinctly named types" clause of C06
+//@ axiom a-hash-typestr: forall(t, reflect.Type, u, reflect.Type, imp(typeStr(t) == typeStr(u), t == u))
+//@ axiom a-hash-value: forall(n, string, t, string, s, string, m, string, u, string, r, string, imp(sprintf3("%s/%s/%s", box(n), box(t), box(s)) == sprintf3("%s/%s/%s", box(m), box(u), box(r)), n == m && t == u && s == r))
+//@ axiom a-hash-arg: forall(t, string, s, string, u, string, r, string, imp(sprintf2("arg: %s/%s", box(t), box(s)) == sprintf2("arg: %s/%s", box(u), box(r)), t == u && s == r))
+//@ axiom a-hash-out: forall(t, string, s, string, u, string, r, string, imp(sprintf2("out: %s/%s", box(t), box(s)) == sprintf2("out: %s/%s", box(u), box(r)), t == u && s == r))
+//@ axiom a-hash-disjoint: forall(n, string, t, string, s, string, u, string, r, string, sprintf3("%s/%s/%s", box(n), box(t), box(s)) != sprintf2("arg: %s/%s", box(u), box(r)) && sprintf3("%s/%s/%s", box(n), box(t), box(s)) != sprintf2("out: %s/%s", box(u), box(r)) && sprintf2("arg: %s/%s", box(t), box(s)) != sprintf2("out: %s/%s", box(u), box(r)))
+// dynamic dispatch of Hashcode: linked to the verified method bodies below
+//@ axiom hcm-value: forall(v, *valueVertex, graph.hcm(box(v)) == hashV(v.Name, v.Type, v.Subtype))
+//@ axiom hcm-arg: forall(v, *typedArgVertex, graph.hcm(box(v)) == hashA(v.Type, v.Subtype))
+//@ axiom hcm-out: forall(v, *typedOutputVertex, graph.hcm(box(v)) == hashO(v.Type, v.Subtype))
+
+//@ func (*valueVertex).Hashcode
+//@   requires v.Type != nil
+//@   ensures  result == hashV(v.Name, v.Type, v.Subtype)
+//@   assigns  []interface{}
+//@   modifies nothing
+//@ func (*typedArgVertex).Hashcode
+//@   requires v.Type != nil
+//@   ensures  result == hashA(v.Type, v.Subtype)
+//@   assigns  []interface{}
+//@   modifies nothing
+//@ func (*typedOutputVertex).Hashcode
+//@   requires v.Type != nil
+//@   ensures  result == hashO(v.Type, v.Subtype)
+//@   assigns  []interface{}
+//@   modifies nothing
